@@ -671,9 +671,7 @@ func Walk(v ssa.Value, visit func(ssa.Value) bool) {
 		case *ssa.UnOp:
 			if x.Op == token.MUL {
 				if c := Cell(x.X); c != nil {
-					for _, st := range CellStores(c) {
-						rec(st.Val)
-					}
+					rec(c) // whole-cell stores and stores into its fields / elements
 					return
 				}
 				// field / element of a local aggregate: follow the stores to the same path
@@ -900,12 +898,64 @@ func RetVals(ret *ssa.Return, idx int) []ssa.Value {
 		}
 	}
 	if last != nil {
-		return []ssa.Value{last}
+		return FlowVals(last)
 	}
-	// the store happened in a dominating block: collect reaching stores conservatively
+	return FlowVals(u)
+}
+
+// FlowVals resolves loads of local cells flow-sensitively: a load is replaced
+// by the values of the stores that reach it (recursively). A load no store
+// reaches (zero value, or a cell only written through its address) yields
+// nothing.
+func FlowVals(v ssa.Value) []ssa.Value {
 	var out []ssa.Value
+	seen := map[ssa.Value]bool{}
+	var rec func(v ssa.Value)
+	rec = func(v ssa.Value) {
+		if seen[v] {
+			return
+		}
+		seen[v] = true
+		if u, ok := v.(*ssa.UnOp); ok && u.Op == token.MUL {
+			if a, ok := u.X.(*ssa.Alloc); ok && a.Comment != "complit" {
+				for _, st := range ReachingStores(u) {
+					rec(st.Val)
+				}
+				return
+			}
+		}
+		out = append(out, v)
+	}
+	rec(v)
+	return out
+}
+
+// ReachingStores returns the stores to a local cell (in the load's own
+// function) that can reach the load without an intervening store to the
+// same cell.
+func ReachingStores(load *ssa.UnOp) []*ssa.Store {
+	a, ok := load.X.(*ssa.Alloc)
+	if !ok {
+		return nil
+	}
+	fn := load.Parent()
+	var stores []*ssa.Store
 	for _, st := range CellStores(a) {
-		out = append(out, st.Val)
+		if st.Parent() == fn {
+			stores = append(stores, st)
+		}
+	}
+	isOther := func(self *ssa.Store) func(ssa.Instruction) bool {
+		return func(in ssa.Instruction) bool {
+			st, ok := in.(*ssa.Store)
+			return ok && st != self && st.Addr == ssa.Value(a)
+		}
+	}
+	var out []*ssa.Store
+	for _, st := range stores {
+		if PathFrom(fn, st, Is(load), isOther(st)) != nil {
+			out = append(out, st)
+		}
 	}
 	return out
 }
